@@ -90,6 +90,11 @@ func c05RealGzip(n int) []byte {
 		n -= k
 	}
 	w.Close()
+	// a second, tiny member: the stream's trailing ISIZE then describes only this one,
+	// so a decoder that trusts the trailer instead of bounding the output is exposed too
+	w2 := gzip.NewWriter(&b)
+	w2.Write([]byte{0})
+	w2.Close()
 	return b.Bytes()
 }
 
